@@ -484,6 +484,42 @@ def none_attr(payload):
     return dict(bad=bad, reproduced=bool(bad), detail=str(bad))
 
 
+def refused_link(payload):
+    """A link refused because it would close a cycle must leave the parser as it was: parsing and instantiating afterwards give what a
+    parser on which the link was never attempted gives."""
+    from jsonargparse import ArgumentParser
+
+    bad = []
+    for typed in (False, True):
+        outcomes = []
+        for attempt in (True, False):
+            classes = _make_classes(["a", "b", "c"])
+            parser = ArgumentParser(exit_on_error=False)
+            for name in ("a", "b", "c"):
+                if typed and name == "a":
+                    parser.add_subclass_arguments(classes[name], name)
+                else:
+                    parser.add_class_arguments(classes[name], name)
+            parser.link_arguments("a.out", "b.y_a", apply_on="instantiate")
+            if attempt:
+                try:
+                    parser.link_arguments("b.out", "a.init_args.y_b" if typed else "a.y_b", apply_on="instantiate")
+                    bad.append("cyclic link accepted")
+                except ValueError:
+                    pass
+            try:
+                obj = {"a": {"class_path": f"{__name__}.K_a", "init_args": {"x": 1}} if typed else {"x": 1}}
+                cfg = parser.parse_object(obj)
+                del LOG[:]
+                init = parser.instantiate_classes(cfg)
+                outcomes.append(("ok", init.b.y_a, init.a.y_b, sorted(n for n, _ in LOG)))
+            except Exception as ex:
+                outcomes.append(("raised", type(ex).__name__, str(ex)[:120]))
+        if outcomes[0] != outcomes[1]:
+            bad.append(f"after a refused cyclic link ({'subclass argument' if typed else 'class group'}): {outcomes[0]} ; without the attempt: {outcomes[1]}")
+    return dict(bad=bad, reproduced=bool(bad), detail=str(bad))
+
+
 # ------------------------------------------------------------------ main
 
 
@@ -561,6 +597,11 @@ def main(rep, tier):
     rep.extra["self_link_cases"] = bad or "all refused when added"
     for b in bad:
         rep.violation(f"self-loop link accepted: {b}", dict(module="props.c16", func="self_links", payload={}))
+    bad = run_native("props.c16", "refused_link", {}).get("bad", [])
+    rep.evaluations += 1
+    rep.extra["refused_link_cases"] = bad or "the parser answers as if the refused link had never been attempted"
+    for b in bad:
+        rep.violation(f"refused cyclic link: {b}", dict(module="props.c16", func="refused_link", payload={}))
     bad = run_native("props.c16", "none_attr", {}).get("bad", [])
     rep.evaluations += 1
     rep.extra["none_attribute_cases"] = bad or "target receives None in all 8 cases"
